@@ -54,6 +54,9 @@ pub enum Item {
     Raw(Vec<u8>),
     /// a request that gets no response: 0 = QR set, 1 = shorter than a header, 2 = empty, 3 = QDCOUNT 2
     Closer(u8),
+    /// a request padded with zero octets to exactly this many octets (TCP only; lengths around
+    /// powers of two and 65,535, where receive buffers are sized and grown)
+    Padded(ReqSpec, u16),
 }
 
 #[derive(Clone, Debug, Serialize, Deserialize, PartialEq, Eq, Hash)]
@@ -254,6 +257,13 @@ fn render_item(item: &Item, now: u64) -> Vec<u8> {
     match item {
         Item::Req(r) => render(r, &env().pool, &[], now).bytes,
         Item::Raw(b) => b.clone(),
+        Item::Padded(r, len) => {
+            let mut b = render(r, &env().pool, &[], now).bytes;
+            if b.len() < *len as usize {
+                b.resize(*len as usize, 0);
+            }
+            b
+        }
         Item::Closer(k) => {
             let (name, _) = env().pool.first().cloned().unwrap_or((MName::root(), 1));
             let mut b = vmodel::wire::Builder::new(0x7777, 0);
@@ -550,6 +560,14 @@ fn check_tcp(case: &Case, port: u16, twin: &Server<Cat>, st: &mut Stats) -> Verd
     st.class_n("tcp-frames-split-across-segments", split_frames as u64);
     if closer_at.is_some() {
         st.class("tcp-batch-with-a-response-less-request");
+    }
+    for item in &case.tcp {
+        if let Item::Padded(_, l) = item {
+            st.class("tcp-request-padded-to-a-large-length");
+            if (*l as u32 + 5).is_power_of_two() || (0..=9).any(|d| ((*l as u32 + 5 - d).is_power_of_two())) || *l >= 65531 {
+                st.class("tcp-request-length-within-4-of-a-power-of-two-or-65535");
+            }
+        }
     }
     if trailing_after_closer {
         st.class("tcp-data-pipelined-after-the-response-less-request");
@@ -870,10 +888,19 @@ fn item() -> impl Strategy<Value = Item> {
     ]
 }
 
+fn tcp_item() -> impl Strategy<Value = Item> {
+    let near = |c: u32| (c.saturating_sub(4)..=(c + 4).min(65535)).prop_map(|v| v as u16);
+    prop_oneof![
+        14 => item(),
+        1 => (req_spec(20, 0.02), prop_oneof![near(512), near(1024), near(2048), near(4096), near(8192), near(16384), near(32768), near(65535), 600u16..=65535])
+            .prop_map(|(r, l)| Item::Padded(r, l)),
+    ]
+}
+
 fn case_strategy() -> impl Strategy<Value = Case> {
     (
         0u8..CONFIGS.len() as u8,
-        prop::collection::vec(item(), 1..=12),
+        prop::collection::vec(tcp_item(), 1..=12),
         prop::collection::vec(any::<u16>(), 0..10),
         prop::collection::vec(0u8..4, 0..12),
         prop::option::weighted(0.1, (any::<u16>(), 0u8..40)),
